@@ -27,7 +27,8 @@ def seeded_table():
         m = json.load(open(f))
         n = os.path.basename(os.path.dirname(f))
         if n.startswith('harmless'):
-            rows.append('| %s | – | %s | – | expected and observed: no alarm (%s) |' % (n, m.get('what_it_changes', '')[:150], ', '.join('%s exit %s' % (k, r.get('exit')) for k, r in m.get('verif', {}).items())))
+            rows.append('| %s | – | %s | – | expected and observed: no alarm (%s) |' % (n, m.get('what_it_changes', '')[:150].replace('|', '/').replace('\n', ' '), ', '.join(
+                '%s exit %s%s' % (k, r.get('exit'), (' (%d undecided)' % len(r['undecided'])) if isinstance(r.get('undecided'), list) and r.get('undecided') else '') for k, r in sorted(m.get('verif', {}).items()))))
             continue
         v = m.get('verif', {})
         caught = []
